@@ -39,3 +39,8 @@ func TsVerifParts(v any) (date, time uint32, extra int, ok bool) {
 	}
 	return 0, 0, 0, false
 }
+
+// TsVerifMkTimestamp builds the timestamp with an extra byte that a client hands out.
+func TsVerifMkTimestamp(d SuDate, extra uint8) PackableValue {
+	return SuTimestamp{SuDate: d, extra: extra}
+}
